@@ -436,7 +436,7 @@ package adt
 // lemmas: the accumulators are commutative, associative and idempotent
 //@ spec func maxMode(a defaultMode, b defaultMode) defaultMode { ite(a > b, a, b) }
 //@ spec func minArc(a ArcType, b ArcType) ArcType { ite(a < b, a, b) }
-//@ lemma kind_meet_acu: forall a, b, c Kind :: a & b == b & a && (a & b) & c == a & (b & c) && a & a == a && a & TopKind == a
+//@ lemma kind_meet_acu: forall a, b, c Kind :: a & b == b & a && (a & b) & c == a & (b & c) && a & a == a && (a &^ TopKind == 0 ==> a & TopKind == a)
 //@ lemma flags_join_acu: forall a, b, c conjunctFlags :: a | b == b | a && (a | b) | c == a | (b | c) && a | a == a
 //@ lemma mode_max_acu: forall a, b, c defaultMode :: maxMode(a, b) == maxMode(b, a) && maxMode(maxMode(a, b), c) == maxMode(a, maxMode(b, c)) && maxMode(a, a) == a && maxMode(a, maybeDefault) == a
 //@ lemma arc_min_acu: forall a, b, c ArcType :: minArc(a, b) == minArc(b, a) && minArc(minArc(a, b), c) == minArc(a, minArc(b, c)) && minArc(a, a) == a
